@@ -47,8 +47,8 @@ def main():
     wt = os.path.join(tmp, 'wt')
     meta = {'id': sid, 'property': prop, 'written_by': 'fresh sub-agent that saw only the property text and a scratch worktree', 'ran': []}
     try:
-        subprocess.run(['git', '-C', '/repo', 'worktree', 'add', '-q', '--detach', wt, 'HEAD'], check=True)
-        head = subprocess.run(['git', '-C', '/repo', 'rev-parse', '--short', 'HEAD'], capture_output=True, text=True).stdout.strip()
+        subprocess.run(['git', '-C', '/repo', 'worktree', 'add', '-q', '--detach', wt, os.environ.get('SEED_BASE', 'HEAD')], check=True)
+        head = subprocess.run(['git', '-C', '/repo', 'rev-parse', '--short', os.environ.get('SEED_BASE', 'HEAD')], capture_output=True, text=True).stdout.strip()
         meta['repo_head'] = head
         shutil.copy(demo, os.path.join(wt, '_demo.py'))
         rc_clean, out = sh([PY, '_demo.py'], wt, {'PYTHONPATH': wt}, timeout=180)
